@@ -112,6 +112,9 @@ func shTable(r *mc.Recorder, alpha string, n int, f shFlags, spell func(string) 
 			return
 		}
 		if err != nil {
+			if in == "" {
+				return // the properties speak of the sequences the function accepts; the empty one may be refused
+			}
 			r.Failf("accepted", q(in)+" "+f.String(), nil, "accepted", "error: "+err.Error())
 			return
 		}
@@ -668,10 +671,11 @@ func c05units(tier string) []mc.Unit {
 					continue
 				}
 				wantOK := strings.ContainsRune(tc.alpha, unicode.ToUpper(c))
-				if u := strings.ToUpper(string(c)); len([]rune(u)) == 1 && strings.ContainsRune(tc.alpha, []rune(u)[0]) {
-					wantOK = true // what upper-casing the whole string makes of it (case is irrelevant by C04)
-				} else if len([]rune(u)) != 1 {
+				if u := strings.ToUpper(string(c)); len([]rune(u)) != 1 {
 					continue // special-casing to several letters: not a single letter any more
+				} else if c >= 0x80 && (wantOK || strings.ContainsRune(tc.alpha, []rune(u)[0])) {
+					continue // a non-ASCII letter whose upper-case form is in the alphabet (U+017F, U+0131): a case spelling
+					// for an implementation that upper-cases with Unicode rules, an outside letter for one that does not
 				}
 				s := tc.base[:3] + string(c) + tc.base[3:]
 				var err error
@@ -740,6 +744,9 @@ func c05units(tier string) []mc.Unit {
 					var h string
 					var err error
 					if p := catch(func() { h, err = seqhash.Hash(s, "PROTEIN", circ, false) }); p != "" || err != nil {
+						if p == "" && s == "" {
+							return // the empty sequence may be refused
+						}
 						r.Failf("accepted", q(s)+" PROTEIN", nil, "accepted", fmt.Sprint(p, err))
 						return
 					}
@@ -827,7 +834,7 @@ func c05units(tier string) []mc.Unit {
 						continue
 					}
 					bad("after hashing it as double-stranded DNA", s, "PROTEIN", circ, true)
-					bad("after hashing it as double-stranded DNA", s, "dna", circ, true)
+					bad("after hashing it as double-stranded DNA", s, "TNA", circ, true)
 				}
 			})
 		}
@@ -839,7 +846,9 @@ func c05units(tier string) []mc.Unit {
 	// rejection
 	us = append(us, mc.Unit{Name: "reject", Weight: 10, Run: func(r *mc.Recorder) {
 		var cnt int64
-		for _, typ := range []string{"", "dna", "rna", "protein", "Dna", "TNA", "Protein", "PROTEIN ", " DNA", "DNA\n", "AA", "D", "DNARNA"} {
+		// unknown types only: other spellings of the three known types (lower case, surrounding blanks) may be
+		// accepted by a lenient implementation without contradicting the statement
+		for _, typ := range []string{"", "TNA", "XNA", "AA", "D", "DNARNA", "nucleotide", "PEPTIDE", "0", "DNA2"} {
 			for _, circ := range []bool{false, true} {
 				for _, ds := range []bool{false, true} {
 					var err error
